@@ -4,3 +4,7 @@ pub(crate) mod vk;
 pub(crate) mod spec_vt;
 pub(crate) mod spec_strip;
 pub(crate) mod util;
+pub(crate) mod spec_sgr;
+pub(crate) mod astyle;
+pub(crate) mod amodel;
+pub(crate) mod wincon_stream;
